@@ -193,3 +193,7 @@ def run(ctx):
             d = ctx.facts.derived(P, tr)
             ctx.require(d is True, "R02.6", "derived:" + tr, "%s for Priority is derived" % tr,
                         fail="%s for Priority is %s" % (tr, "hand-written" if d is False else "missing"))
+
+    # ---- R02.8 "urgent flushes": an urgent event must first be collected - the per-iteration classification owned by C01
+    ctx.rule("R02.8", "an urgent event is pushed whatever the filter says about it (so that it can flush the pending batch)")
+    ctx.borrow("C01", ["R01.1"], "R02.8", "every iteration of the collect loop is classified: urgent and empty events bypass the filter, a filter error only drops filtered events")
